@@ -98,6 +98,40 @@ Proof.
     constructor; [unfold date_char; rewrite Ed; reflexivity|exact Hf].
 Qed.
 
+(** a space of the layout is Go's [time.skip] (a run of spaces, the space literals after it consumed
+    with it): a successful parse under [Lit 32 :: r] is a successful parse under [r] of the text
+    without some of its leading spaces *)
+Lemma drop_spaces_split : forall s, exists pre, s = pre ++ drop_spaces s /\ Forall (fun c => c = 32%N) pre.
+Proof.
+  induction s as [|c s [pre [E F]]]; [exists []; split; [reflexivity|constructor]|].
+  destruct (N.eqb_spec c 32) as [->|Hc].
+  - exists (32%N :: pre). split; [cbn [app drop_spaces]; f_equal; exact E|constructor; [reflexivity|exact F]].
+  - exists []. split; [|constructor]. cbn [app].
+    destruct c as [|p]; [reflexivity|]. do 6 (try (destruct p as [p|p|]; try reflexivity)).
+    exfalso; apply Hc; reflexivity.
+Qed.
+
+Lemma parse_tokens_space_step : forall r s y m d res,
+  parse_tokens (Lit 32%N :: r) s y m d = Some res ->
+  exists pre s', s = pre ++ s' /\ Forall (fun c => c = 32%N) pre /\ parse_tokens r s' y m d = Some res.
+Proof.
+  intros r s y m d res H.
+  assert (Hr : drop_space_lits r = r \/ exists r', r = Lit 32%N :: r').
+  { destruct r as [|[| | |c] r']; try (left; reflexivity).
+    destruct (N.eqb_spec c 32) as [->|Hc]; [right; eexists; reflexivity|left].
+    destruct c as [|p]; [reflexivity|]. do 6 (try (destruct p as [p|p|]; try reflexivity)).
+    exfalso; apply Hc; reflexivity. }
+  cbn [parse_tokens] in H. change (32 =? 32)%N with true in H. cbv iota in H.
+  destruct Hr as [E|[r' ->]].
+  - rewrite E in H. destruct s as [|c s0].
+    + exists [], []. split; [reflexivity|split; [constructor|exact H]].
+    + destruct (c =? 32)%N; [|discriminate].
+      destruct (drop_spaces_split (c :: s0)) as [pre [E1 F1]].
+      exists pre, (drop_spaces (c :: s0)). split; [exact E1|split; [exact F1|exact H]].
+  - exists [], s. split; [reflexivity|split; [constructor|]].
+    cbn [parse_tokens]. change (32 =? 32)%N with true. cbv iota. exact H.
+Qed.
+
 Lemma parse_tokens_chars : forall toks s y m d r, Forall safe_tok toks ->
   parse_tokens toks s y m d = Some r -> Forall (fun c => date_char c = true) s.
 Proof.
@@ -116,9 +150,13 @@ Proof.
       destruct (_ && _)%bool; [|discriminate].
       apply take_digits_chars in E. destruct E as [pre [Hs Hf]]. subst s.
       apply Forall_app. split; [exact Hf|]. eapply IH; eassumption.
-    + destruct s as [|c' s']; [discriminate|].
-      destruct (N.eqb_spec c c') as [Ec|Ec]; [|discriminate]. subst c'.
-      constructor; [unfold date_char; cbn in Ht; rewrite Ht; apply orb_true_r|]. eapply IH; eassumption.
+    + revert H. destruct (N.eqb_spec c 32) as [->|Hc]; intros H.
+      * apply parse_tokens_space_step in H. destruct H as [pre [s' [-> [Hpre H]]]].
+        apply Forall_app. split; [|eapply IH; eassumption].
+        eapply Forall_impl; [|exact Hpre]. intros a ->. reflexivity.
+      * destruct s as [|c' s']; [discriminate|].
+        destruct (N.eqb_spec c c') as [Ec|Ec]; [|discriminate]. subst c'.
+        constructor; [unfold date_char; cbn in Ht; rewrite Ht; apply orb_true_r|]. eapply IH; eassumption.
 Qed.
 
 Lemma parse_date_chars : forall toks s c, Forall safe_tok toks -> parse_date toks s = Some c ->
